@@ -17,6 +17,10 @@ package main
 //                                               (skipped when it would have more cumulated work than the tip)
 //   e  <ver> ...                                Chains.Add of a child of the last header added by f/e (may reorganise)
 //   o  <ver> ...                                Chains.Add of an orphan (unknown parent);  oc: child of the last orphan
+//   tz <ingest zone> <export zone> <import zone>   the store is written, exported and imported by three CHILD processes of the
+//                                               harness started with TZ=<zone> (Go's time.Local and the C library of SQLite take
+//                                               the zone at process start); the model has no zone: nothing may depend on it.
+//                                               A zone without a file under /usr/share/zoneinfo makes the case SKIPPED (reported).
 //   xe f|s <k> <seed>                           before the export of this store, in the SAME temporary directory: an earlier
 //                                               ExportHeaders of another store of <k> (seeded) headers whose last step fails
 //                                               (f: the target directory does not exist) or succeeds (s).  The export of a
@@ -40,7 +44,7 @@ package main
 //     configuration reads the bytes on disk (the reference reading: the importer's reader must not be configured to see anything
 //     else); a reader error is the one-field record !csv-error (the import stops there like on any malformed row).
 //     * = the exported file unchanged, ! = no readable file, d<n>/<i>:<record>/.. = n records, those differ from the export,
-//     f/<record>/.. = all records; fields %XX-escaped, joined by ',', records by '/' 
+//     f/<record>/.. = all records; fields %XX-escaped, joined by ',', records by '/'
 // rows: hashid,previd,height,version,merkle,ts,bits,nonce,work,cum,state(L|S|O|R) joined by '/'
 //
 // observable:  X=<exported records>|I=<ok|err>:<target table after the start>|I=...
@@ -50,11 +54,13 @@ import (
 	"compress/gzip"
 	"crypto/sha256"
 	"encoding/csv"
+	"encoding/json"
 	"fmt"
 	"io"
 	"math/big"
 	"math/rand"
 	"os"
+	"os/exec"
 	"path/filepath"
 	"sort"
 	"strconv"
@@ -74,11 +80,12 @@ import (
 func init() { register("C17", runC17) }
 
 type c17Src struct {
-	key  string
-	rows []HeaderRow // full table, rowid order
-	good [][]string  // exported records (header line first); nil when the export failed
-	xobs string      // the X= observable
-	db   string      // path of the source database file
+	key   string
+	rows  []HeaderRow // full table, rowid order
+	good  [][]string  // exported records (header line first); nil when the export failed
+	xobs  string      // the X= observable
+	db    string      // path of the source database file
+	zones []string    // tz operation: ingest, export, import zone (nil: everything in this process)
 }
 
 type c17H struct {
@@ -104,6 +111,11 @@ func c17Root(c *Ctx) string {
 }
 
 func runC17(c *Ctx) error {
+	for i, a := range c.Args {
+		if a == "--c17child" && i+1 < len(c.Args) {
+			return c17Child(c, c.Args[i+1])
+		}
+	}
 	h := &c17H{c: c}
 	h.root = c17Root(c)
 	defer os.RemoveAll(h.root)
@@ -158,7 +170,7 @@ func c17Ops(line string) []string {
 func c17IsSrcOp(op string) bool {
 	w := strings.Fields(op)
 	switch w[0] {
-	case "a", "d", "f", "e", "o", "oc", "z", "xe":
+	case "a", "d", "f", "e", "o", "oc", "z", "xe", "tz":
 		return true
 	}
 	return false
@@ -206,6 +218,120 @@ func c17Guard(f func() error) (err error) {
 	return f()
 }
 
+var errC17ZoneMissing = fmt.Errorf("zone file missing")
+
+func c17ZoneOK(z string) bool {
+	if z == "UTC" {
+		return true
+	}
+	if strings.Contains(z, "..") {
+		return false
+	}
+	st, err := os.Stat(filepath.Join("/usr/share/zoneinfo", z))
+	return err == nil && !st.IsDir()
+}
+
+// c17ChildSpec is what a child process of the harness is asked to do (one phase under its own TZ).
+type c17ChildSpec struct {
+	Phase    string   // ingest | export | import
+	Ops      []string // ingest: the source operations
+	Dir      string   // ingest / import: directory of the database file
+	Gz       string   // export: target file
+	Rel      string   // import: prepared file path relative to the working directory
+	Prepared bool
+	CkH      int32
+	CkHash   string
+	DC, EX   bool
+	Out      string // result file: "ok" | "err ..." | "panic ..."
+}
+
+func (h *c17H) runChild(zone string, spec c17ChildSpec) (string, error) {
+	spec.Out = filepath.Join(h.root, "child-result.txt")
+	_ = os.Remove(spec.Out)
+	sf := filepath.Join(h.root, "child-spec.json")
+	b, _ := json.Marshal(spec)
+	if err := os.WriteFile(sf, b, 0o644); err != nil {
+		return "", err
+	}
+	cout := filepath.Join(h.root, "child-out")
+	cmd := exec.Command(os.Args[0], "C17", cout, "--c17child", sf)
+	cmd.Dir = h.cwd
+	cmd.Env = append(os.Environ(), "TZ="+zone)
+	if out, err := cmd.CombinedOutput(); err != nil {
+		return "", fmt.Errorf("child %s under TZ=%s: %v: %s", spec.Phase, zone, err, string(out))
+	}
+	res, err := os.ReadFile(spec.Out)
+	if err != nil {
+		return "", err
+	}
+	h.c.Count("child-process:" + spec.Phase)
+	return string(res), nil
+}
+
+// c17Child is the harness running as a child process: one phase, result into spec.Out.
+func c17Child(c *Ctx, specFile string) error {
+	b, err := os.ReadFile(specFile)
+	if err != nil {
+		return err
+	}
+	var spec c17ChildSpec
+	if err := json.Unmarshal(b, &spec); err != nil {
+		return err
+	}
+	h := &c17H{c: c, root: filepath.Dir(specFile)}
+	h.cwd, _ = os.Getwd()
+	res := "ok"
+	err = c17Guard(func() error {
+		switch spec.Phase {
+		case "ingest":
+			return h.buildStore(spec.Dir, spec.Ops)
+		case "export":
+			lg := zerolog.Nop()
+			return database.ExportHeaders(c17ExportCfg(filepath.Join(spec.Dir, "bhs.db"), spec.Gz), &lg)
+		case "import":
+			st, e := c17Start(spec.Dir, spec.Prepared, spec.Rel, spec.CkH, spec.CkHash, spec.DC, spec.EX)
+			if st != nil {
+				st.Close()
+			}
+			return e
+		}
+		return fmt.Errorf("unknown phase %q", spec.Phase)
+	})
+	if err != nil {
+		res = "err " + err.Error()
+		if strings.HasPrefix(err.Error(), "PANIC") {
+			res = "panic " + err.Error()
+		}
+	}
+	return os.WriteFile(spec.Out, []byte(res), 0o644)
+}
+
+func c17ExportCfg(dbPath, gz string) *config.AppConfig {
+	cfg := config.GetDefaultAppConfig()
+	cfg.Db.Engine = config.DBSQLite
+	cfg.Db.SchemaPath = filepath.Join(repoRoot(), "database", "migrations")
+	cfg.Db.SQLite.FilePath = dbPath
+	cfg.Db.PreparedDbFilePath = gz
+	cfg.Logging.Level = "disabled"
+	return cfg
+}
+
+// c17Start is one database.Init on the target with the given newest checkpoint and p2p options.
+func c17Start(tdir string, prepared bool, rel string, ckH int32, ckHash string, dc, ex bool) (*Stack, error) {
+	ck, herr := chainhash.NewHashFromStr(ckHash)
+	if herr != nil {
+		return nil, herr
+	}
+	decoy := chainhash.Hash(sha256.Sum256([]byte("c17-decoy")))
+	config.Checkpoints = []chaincfg.Checkpoint{{Height: 0, Hash: &decoy}, {Height: ckH, Hash: ck}}
+	return NewStack(StackOpts{Dir: tdir, PreparedDb: prepared, PreparedPath: rel, Mutate: func(cfg *config.AppConfig) {
+		if cfg.P2P != nil {
+			cfg.P2P.DisableCheckpoints = dc
+			cfg.P2P.Experimental = ex
+		}
+	}})
+}
+
 // buildSource builds (or reuses) the source store for the given source ops and exports it.
 func (h *c17H) buildSource(ops []string) (*c17Src, error) {
 	key := strings.Join(ops, ";")
@@ -222,9 +348,86 @@ func (h *c17H) buildSource(ops []string) (*c17Src, error) {
 			_ = os.RemoveAll(filepath.Join(os.TempDir(), e.Name()))
 		}
 	}
+	var zones []string
+	var earlier []c17Earlier
+	for _, op := range ops {
+		w := strings.Fields(op)
+		if w[0] == "tz" && len(w) == 4 {
+			zones = w[1:4]
+		}
+		if w[0] == "xe" && len(w) == 4 {
+			k, _ := strconv.Atoi(w[2])
+			seed, _ := strconv.ParseInt(w[3], 10, 64)
+			earlier = append(earlier, c17Earlier{fail: w[1] == "f", k: k, seed: seed})
+		}
+	}
+	for _, z := range zones {
+		if !c17ZoneOK(z) {
+			return nil, errC17ZoneMissing
+		}
+	}
+	if zones == nil {
+		if err := h.buildStore(dir, ops); err != nil {
+			return nil, err
+		}
+	} else {
+		res, err := h.runChild(zones[0], c17ChildSpec{Phase: "ingest", Ops: ops, Dir: dir})
+		if err != nil {
+			return nil, err
+		}
+		if res != "ok" {
+			return nil, fmt.Errorf("ingest child: %s", res)
+		}
+	}
+	dbPath := filepath.Join(dir, "bhs.db")
+	rows := c17DumpFile(dbPath)
+	for _, e := range earlier {
+		if err := h.earlierExport(e); err != nil {
+			return nil, err
+		}
+	}
+	src := &c17Src{key: key, rows: rows, db: dbPath, zones: zones}
+	gz := filepath.Join(h.root, "export.csv.gz")
+	_ = os.Remove(gz)
+	var err error
+	if zones == nil {
+		lg := zerolog.Nop()
+		err = c17Guard(func() error { return database.ExportHeaders(c17ExportCfg(dbPath, gz), &lg) })
+	} else {
+		var res string
+		res, err = h.runChild(zones[1], c17ChildSpec{Phase: "export", Dir: dir, Gz: gz})
+		if err == nil && res != "ok" {
+			err = fmt.Errorf("%s", strings.ToUpper(res[:1])+res[1:])
+			if strings.HasPrefix(res, "panic") {
+				err = fmt.Errorf("PANIC %s", res)
+			}
+		} else if err != nil {
+			return nil, err
+		}
+	}
+	if err != nil {
+		src.xobs = "X=ERR"
+		if strings.HasPrefix(err.Error(), "PANIC") {
+			src.xobs = "X=PANIC"
+		}
+	} else {
+		recs, rerr := c17ReadGz(gz)
+		if rerr != nil {
+			src.xobs = "X=UNREADABLE"
+		} else {
+			src.good = recs
+			src.xobs = "X=" + c17Recs(recs)
+		}
+	}
+	h.src = src
+	return src, nil
+}
+
+// buildStore creates the database under dir and applies the source operations (in this process, under its zone).
+func (h *c17H) buildStore(dir string, ops []string) error {
 	s, err := NewStack(StackOpts{Dir: dir})
 	if err != nil {
-		return nil, err
+		return err
 	}
 	hasher := service.DefaultBlockHasher()
 	longestTip := func() (*domains.BlockHeader, error) {
@@ -249,7 +452,6 @@ func (h *c17H) buildSource(ops []string) (*c17Src, error) {
 	}
 	var lastFork, lastOrphan, direct *domains.BlockHeader
 	var pending []domains.BlockHeader
-	var earlier []c17Earlier
 	shuffle := int64(0)
 	flush := func() error {
 		if shuffle != 0 {
@@ -271,15 +473,10 @@ func (h *c17H) buildSource(ops []string) (*c17Src, error) {
 		if kind != "d" {
 			if err := flush(); err != nil {
 				s.Close()
-				return nil, err
+				return err
 			}
 		}
-		if kind == "xe" {
-			if len(args) == 3 {
-				k, _ := strconv.Atoi(args[1])
-				seed, _ := strconv.ParseInt(args[2], 10, 64)
-				earlier = append(earlier, c17Earlier{fail: args[0] == "f", k: k, seed: seed})
-			}
+		if kind == "xe" || kind == "tz" {
 			continue
 		}
 		if kind == "z" {
@@ -308,7 +505,7 @@ func (h *c17H) buildSource(ops []string) (*c17Src, error) {
 			tip, err := longestTip()
 			if err != nil {
 				s.Close()
-				return nil, err
+				return err
 			}
 			add(f.src(tip.Hash))
 		case "d":
@@ -316,7 +513,7 @@ func (h *c17H) buildSource(ops []string) (*c17Src, error) {
 				tip, err := longestTip()
 				if err != nil {
 					s.Close()
-					return nil, err
+					return err
 				}
 				direct = tip
 			}
@@ -329,7 +526,7 @@ func (h *c17H) buildSource(ops []string) (*c17Src, error) {
 			tip, err := longestTip()
 			if err != nil {
 				s.Close()
-				return nil, err
+				return err
 			}
 			ph := tip.Height - int32(back) - 1
 			if back < 0 || ph < 0 {
@@ -373,44 +570,10 @@ func (h *c17H) buildSource(ops []string) (*c17Src, error) {
 	}
 	if err := flush(); err != nil {
 		s.Close()
-		return nil, err
+		return err
 	}
-	rows, err := s.DumpHeaders()
-	if err != nil {
-		s.Close()
-		return nil, err
-	}
-	cfg := *s.Cfg
-	dbc := *s.Cfg.Db
-	cfg.Db = &dbc
 	s.Close()
-	for _, e := range earlier {
-		if err := h.earlierExport(e); err != nil {
-			return nil, err
-		}
-	}
-	src := &c17Src{key: key, rows: rows, db: s.DBPath}
-	gz := filepath.Join(h.root, "export.csv.gz")
-	_ = os.Remove(gz)
-	cfg.Db.PreparedDbFilePath = gz
-	lg := zerolog.Nop()
-	err = c17Guard(func() error { return database.ExportHeaders(&cfg, &lg) })
-	if err != nil {
-		src.xobs = "X=ERR"
-		if strings.HasPrefix(err.Error(), "PANIC") {
-			src.xobs = "X=PANIC"
-		}
-	} else {
-		recs, rerr := c17ReadGz(gz)
-		if rerr != nil {
-			src.xobs = "X=UNREADABLE"
-		} else {
-			src.good = recs
-			src.xobs = "X=" + c17Recs(recs)
-		}
-	}
-	h.src = src
-	return src, nil
+	return nil
 }
 
 type c17Earlier struct {
@@ -915,6 +1078,12 @@ func (h *c17H) runCase(ops []string, class string) error {
 		}
 	}
 	src, err := h.buildSource(srcOps)
+	if err == errC17ZoneMissing {
+		// never reported as OK: no case is recorded, the omission is counted and named in the evidence
+		h.c.Count("SKIPPED:zone-file-missing")
+		h.c.Meta("skipped_zone_case", strings.Join(srcOps[:1], ";"))
+		return nil
+	}
 	if err != nil {
 		return err
 	}
@@ -1120,23 +1289,27 @@ func (h *c17H) runCase(ops []string, class string) error {
 			default:
 				fspecs = append(fspecs, "!")
 			}
-			ck, herr := chainhash.NewHashFromStr(ckHash)
-			if herr != nil {
-				return herr
-			}
-			decoy := chainhash.Hash(sha256.Sum256([]byte("c17-decoy")))
-			config.Checkpoints = []chaincfg.Checkpoint{{Height: 0, Hash: &decoy}, {Height: ckH, Hash: ck}}
 			var st *Stack
-			err := c17Guard(func() error {
-				s, e := NewStack(StackOpts{Dir: tdir, PreparedDb: prepared, PreparedPath: rel, Mutate: func(cfg *config.AppConfig) {
-					if cfg.P2P != nil {
-						cfg.P2P.DisableCheckpoints = optDC
-						cfg.P2P.Experimental = optEX
-					}
-				}})
-				st = s
-				return e
-			})
+			var err error
+			if src.zones == nil {
+				err = c17Guard(func() error {
+					s, e := c17Start(tdir, prepared, rel, ckH, ckHash, optDC, optEX)
+					st = s
+					return e
+				})
+			} else {
+				var cres string
+				cres, err = h.runChild(src.zones[2], c17ChildSpec{Phase: "import", Dir: tdir, Prepared: prepared, Rel: rel,
+					CkH: ckH, CkHash: ckHash, DC: optDC, EX: optEX})
+				if err != nil {
+					return err
+				}
+				if strings.HasPrefix(cres, "panic") {
+					err = fmt.Errorf("PANIC %s", cres)
+				} else if cres != "ok" {
+					err = fmt.Errorf("%s", cres)
+				}
+			}
 			res := "ok"
 			if err != nil {
 				res = "err"
